@@ -308,6 +308,9 @@ func symEquals(fr *frame, t types.Type, x, y value) value {
 	case timeVal:
 		yt := y.(timeVal)
 		return simplifyBoolV(mkEq(x.ns, yt.ns))
+	case absBytes:
+		// an abstract byte array (e.g. a hash value used as a map key)
+		return simplifyBoolV(mkEq(x.t, bytesTerm(y)))
 	case structure:
 		ys := y.(structure)
 		tStruct := t.Underlying().(*types.Struct)
